@@ -106,9 +106,47 @@ def x_resolved(self, st, r, name):
             rv = _abscall.fold_regex_const(self, r[2], r[1])
             if rv is not KeyError:
                 return rv
+            rv = x_module_table(self, st, r[2], r[1])
+            if rv is not KeyError:
+                return rv
             return Top("global:" + name)
         return self.x_lift(st, v)
     raise U(self)("resolved %r" % (r,))
+
+
+def x_module_table(self, st, node, mod, _depth=0):
+    """A module-level tuple/list/dict display whose members are constants or NAMES of classes / functions / other such
+    tables of that module (dispatch tables): evaluated member by member.  KeyError when it is anything else."""
+    if _depth > 4:
+        return KeyError
+    if isinstance(node, (ast.Tuple, ast.List)):
+        out = []
+        for e in node.elts:
+            v = x_module_table(self, st, e, mod, _depth + 1)
+            if v is KeyError:
+                return KeyError
+            out.append(v)
+        return tuple(out) if isinstance(node, ast.Tuple) else st.alloc(HObj("list", kind="list", items=out))
+    if isinstance(node, ast.Dict):
+        items = []
+        for k, v in zip(node.keys, node.values):
+            if k is None:
+                return KeyError
+            kk, vv = x_module_table(self, st, k, mod, _depth + 1), x_module_table(self, st, v, mod, _depth + 1)
+            if kk is KeyError or vv is KeyError:
+                return KeyError
+            items.append((kk, vv))
+        return st.alloc(HObj("dict", kind="dict", items=items))
+    if isinstance(node, (ast.Name, ast.Attribute)):
+        r = self.ix.resolve_expr(mod, node)
+        if isinstance(r, (ClassInfo, FuncInfo)):
+            return self.x_resolved(st, r, unparse(node))
+        if isinstance(r, tuple) and r[0] == "ext":
+            return self.x_resolved(st, r, unparse(node))
+    try:
+        return self.x_lift(st, self.ix.fold(node, mod))
+    except NotConst:
+        return KeyError
 
 
 def x_const(self, st, key, v):
